@@ -3,5 +3,6 @@ CONSTANTS
   MaxN = @MAXN@
   Depth = @DEPTH@
   Emit = @EMIT@
+  WithOf = FALSE
 INVARIANTS TypeOK LenLaw Exhausted WeightResets OpenOnlyOffStart RevKeeps EEmitHist
 CHECK_DEADLOCK FALSE
